@@ -120,6 +120,16 @@ Definition conn_eqb (m : list dispatch * cend) (o : oconn) : bool :=
 
 Definition subset (a b : list cmd) : bool := forallb (fun x => existsb (Z.eqb x) b) a.
 
+(* The model composed with what the peer REALLY did (the ghost fields of the handshake records
+   and installed entries are the scripted peer's own log / the stream's real state): the
+   conclusion of C05_dispatch_real, evaluated on the run.  It fails exactly when a handshake of
+   the real implementation reported more than happened (full_faithful violated) and a handler
+   whose current policy requires it was dispatched on that session. *)
+Definition inv_real_ok (i : invocation) : bool :=
+  i_rawpath i ||
+  (let p := current_policy (i_srv i) (i_cmd i) in
+   (negb (requires_authn p) || i_auth_real i) && (negb (requires_enc p) || i_enc_real i)).
+
 (* ---- cases -------------------------------------------------------------------- *)
 
 Inductive case :=
@@ -137,7 +147,8 @@ Definition check_case (c : case) : bool :=
   match c with
   | CHist tabs evs obs =>
       match map_opt (event_of tabs) evs with
-      | Some es => all2 conn_eqb (run_history [] es) obs
+      | Some es => let rh := run_history [] es in
+                   all2 conn_eqb rh obs && forallb inv_real_ok (invocations (flat_map fst rh))
       | None => false   (* a table index out of range: malformed case *)
       end
   | CLevel def per a e obs =>
